@@ -42,6 +42,7 @@ PF = gen.Profile(
     max_slots=8,
 )
 PF_WHOLE = replace(PF, subslot=False, odd_eff=False, chain=False, alap_task=True, max_slots=12)
+PF_TEAMLIM = replace(PF, subslot=False, odd_eff=False, chain=False, alternatives=False, limits=True, task_limits=True, res_groups=True, max_res=4, max_slots=16)
 PF_UNEQ = replace(PF, unequal_teams=True, alternatives=False, max_tasks=6)
 
 
@@ -146,10 +147,12 @@ def eval_project(spec):
 def campaigns(tier):
     q = tier == "quick"
     return [
-        Campaign("subslot", "hyp", evaluate=eval_project, strategy=lambda: gen.project_specs(PF), n=2000 if q else 50000, floor_nontrivial=0.3,
+        Campaign("subslot", "hyp", evaluate=eval_project, strategy=lambda: gen.project_specs(PF), n=3000 if q else 50000, floor_nontrivial=0.3,
                  describe="D1+D2: sub-slot efforts, odd efficiencies, chains, alternatives, project-level ALAP"),
         Campaign("whole", "hyp", evaluate=eval_project, strategy=lambda: gen.project_specs(PF_WHOLE), n=500 if q else 10000,
                  describe="D0+D2: whole-slot efforts, teams, task-level ALAP anchors"),
+        Campaign("teams_under_limits", "hyp", evaluate=eval_project, strategy=lambda: gen.project_specs(PF_TEAMLIM), n=800 if q else 16000,
+                 describe="teams whose members share resource-group, department and task limits (room for fewer bookings than members)"),
         Campaign("unequal_teams", "hyp", evaluate=eval_project, strategy=lambda: gen.project_specs(PF_UNEQ), n=400 if q else 8000,
                  describe="teams whose members differ in efficiency: same-instants clause only (amount clause undefined)"),
     ]
